@@ -20,7 +20,7 @@ assert msg is None, msg
 print("MD3 follows its protocol")
 '''
 
-ALPHABET = ["u_in", "u_out", "g_ok", "g_bad", "g_cols", "g_two", "u_two"]
+ALPHABET = ["u_in", "u_out", "g_ok", "g_bad", "g_cols", "g_two", "u_two", "g_extra", "g_fewer"]
 
 
 def reference_batch(seed, n):
@@ -57,6 +57,10 @@ def labelled(kind, i):
     y = correct if kind == "g_ok" else 1 - correct
     if kind == "g_cols":
         return pd.DataFrame({"x0": [x0], "zz": [0.0], "y": [y]})
+    if kind == "g_extra":       # every reference column plus one more (a row id, a timestamp)
+        return pd.DataFrame({"x0": [x0], "x1": [0.0], "y": [y], "row_id": [float(i)]})
+    if kind == "g_fewer":       # a reference feature is missing
+        return pd.DataFrame({"x0": [x0], "y": [y]})
     if kind == "g_two":
         return pd.DataFrame({"x0": [x0, x0], "x1": [0.0, 0.0], "y": [y, y]})
     return pd.DataFrame({"x0": [x0], "x1": [0.0], "y": [y]})
@@ -116,7 +120,7 @@ def check(scn):
                     m["state"], m["waiting"] = "warning", True
                     scn["_warned"] = True
         else:
-            if (not m["waiting"]) or a in ("g_cols", "g_two"):
+            if (not m["waiting"]) or a in ("g_cols", "g_two", "g_extra", "g_fewer"):
                 refused = True
             else:
                 m["state"] = None
@@ -161,7 +165,7 @@ def run(tier, seed, repo, focus=None):
     depth = 4 if quick else 7
     res = Result("C19", "bounded/b_C19.py",
                  "real MD3 (deterministic stub classifier, user margin function) vs a plain-Python protocol state machine on "
-                 "all interleavings over {update in/out of margin, oracle label correct/wrong, wrong columns, two rows} up to "
+                 "all interleavings over {update in/out of margin, oracle label correct/wrong, renamed / extra / missing columns, two rows} up to "
                  "length %d x sensitivity x oracle length; reference statistics vs an independent k-fold computation; "
                  "non-trivial = the sequence reaches a warning" % depth, {"depth": depth})
     known = load_known()
@@ -178,7 +182,7 @@ def run(tier, seed, repo, focus=None):
         # plus long legal-heavy sequences
         for s in range(10 if quick else 100):
             r2 = np.random.RandomState(seed + s)
-            seqs.append(tuple(r2.choice(ALPHABET, p=[0.3, 0.2, 0.2, 0.15, 0.05, 0.05, 0.05]) for _ in range(30)))
+            seqs.append(tuple(r2.choice(ALPHABET, p=[0.3, 0.2, 0.2, 0.14, 0.04, 0.04, 0.04, 0.02, 0.02]) for _ in range(30)))
         for seq in seqs:
             scn = {"seq": list(map(str, seq)), "sensitivity": sens, "oracle_len": L, "k": k, "n": n, "seed": seed}
             try:
